@@ -30,7 +30,7 @@ var nondetPackages = map[string]bool{"math/rand": true, "math/rand/v2": true, "c
 func newAnalysis(pr *program) *analysis {
 	a := &analysis{pr: pr, allocAt: map[string]int{}, cellOf: map[types.Object]int{}, pts: map[nodeKey]lset{},
 		ents: map[ast.Node]*entity{}, entOfFn: map[*types.Func]*entity{}, closure: map[*entity]int{},
-		sites: map[string]*site{}, mapRange: map[string]*site{}, nondet: map[string]*site{}, extCalls: map[string]int{}, userCall: map[string]int{}, freshUsed: map[string]bool{}}
+		sites: map[string]*site{}, mapRange: map[string]*site{}, nondet: map[string]*site{}, extCalls: map[string]int{}, userCall: map[string]int{}, freshUsed: map[string]bool{}, edges: map[*entity]map[*entity]bool{}}
 	a.locs = append(a.locs, &location{id: 0, kind: "shared", desc: "SHARED"})
 	for _, lf := range pr.flist {
 		sig := lf.obj.Type().(*types.Signature)
@@ -202,10 +202,21 @@ func leanBool(b bool) string {
 	return "false"
 }
 
+var cachedAnalysis *analysis
+
+// sharedAnalysis runs the points-to analysis once per translator run (Writes and Api both read it)
+func sharedAnalysis() *analysis {
+	if cachedAnalysis == nil {
+		a := newAnalysis(loadProgram())
+		a.run()
+		cachedAnalysis = a
+	}
+	return cachedAnalysis
+}
+
 func genWrites() string {
 	pr := loadProgram()
-	a := newAnalysis(pr)
-	a.run()
+	a := sharedAnalysis()
 	var sb strings.Builder
 	sb.WriteString("namespace ExprModel.Gen.Writes\n\n")
 	sb.WriteString("/-- what memory a write can reach: a local variable of the running function, memory allocated by this\n    call (or owned by the calling goroutine's VM), a package-level variable, memory reachable from the shared\n    inputs (program, environment, options), or nothing the analysis knows (refused by the theorems) -/\n")
